@@ -7,10 +7,13 @@ def fuzz_legs(seconds):
             for n in ("^FuzzCert$", "^FuzzCRL$", "^FuzzOCSP$", "^FuzzGen$")]
 
 
-def legs_with_mock(run, qshards, tshards, fuzz=False):
+def legs_with_mock(run, qshards, tshards, fuzz=False, cold=False):
     def f(tier):
         legs = [{"pkg": "props", "run": run, "shards": qshards if tier == "quick" else tshards},
                 {"pkg": "mockreg", "run": "^TestMock$", "shards": 4 if tier == "quick" else 16}]
+        if cold:
+            # first use of the global registry, concurrent, under the race detector: one fresh process per shard
+            legs.append({"pkg": "racecheck", "run": "^TestColdStart$", "shards": 4 if tier == "quick" else 16, "race": True})
         if fuzz and tier == "thorough":
             legs += fuzz_legs(120)
         return legs
@@ -43,10 +46,10 @@ COMMON_ASSUME = [
 
 CHECKS = {
     "C01": {
-        "legs": legs_with_mock("^TestC01$", 12, 16, fuzz=True),
+        "legs": legs_with_mock("^TestC01$", 12, 16, fuzz=True, cold=True),
         "rule": "rapid: object (cert 70% / CRL 20% / OCSP 10%: corpus, 0-4 DER-tree edits, openers re-date/re-scope, built CRLs/OCSP) x registry "
                 "(nil, global, Filter(generated), Filter of Filter) x configuration (none, empty, example, unrelated, well-typed, ill-typed); plus the whole "
-                "corpus under the default registry (enumerated); " + HOME_SWEEP + " (K=2 quick / 3 thorough; inner-node edits include an extra trailing element of each class) through Lint*Ex. Oracle: result-set invariants. Non-trivial = parseable, >=1 result above pass, and bytes edited "
+                "corpus under the default registry (enumerated); " + HOME_SWEEP + " (K=2 quick / 3 thorough; inner-node edits include an extra trailing element of each class) through Lint*Ex; cold start (race-detector build, one fresh process per shard): the first use of the global registry, and the first use after two run-time registrations, is eight goroutines linting at once - every result set complete and equal to a later sequential one. Oracle: result-set invariants. Non-trivial = parseable, >=1 result above pass, and bytes edited "
                 "or registry filtered or configuration given; distinct by hash(DER, filters, config).",
         "assumptions": COMMON_ASSUME + ["'hang' = a single Lint*Ex call exceeding 45 s (about 30 000 times its normal duration)",
                                          "mock leg: 90 instrumented lints (15 sources x 3 kinds x plain/configurable) registered through the public Register* API in a test binary of their own; "
